@@ -50,7 +50,9 @@ CONSTANTS Sel,          \* Sel[kind][pt] \subseteq {"ctx", "conn"} for pt \in {"
           Shutters,     \* goroutines calling Close()+shutdown() (server-side datagram connection), besides the reader
           HasReader,    \* the connection has a reader loop of its own
           ClosesSocket, \* Close() closes the socket (client connections, stream connections)
-          PopAtomic     \* popOnClose takes and clears the list in one critical section (the code)
+          PopAtomic,    \* popOnClose takes and clears the list in one critical section (the code)
+          ParkWakes     \* what the reader, parked handing a message to a full receive queue, also waits for:
+                        \* "conn" = the connection context (the code: Process / pushToReceivedMessageQueue), "done" = the done signal
 
 Ops == {"do", "bwdo", "observe", "obscancel", "ping", "write", "discover"}
 Kinds == {"cancel", "deadline", "close", "peerclose"}
@@ -75,10 +77,11 @@ VARIABLES kind, pc, cctx, ret,         \* the calls
           closeReq, eof,               \* interruptions of the connection
           connCtx, sock, sockCloses,   \* connection context, socket, executions of the real socket close
           list, taken, ran, done, doneCompletions,
-          ppc
+          ppc,
+          rpark                        \* the reader is parked in Process: select{queue <- req, <wake>} with the queue full
 cvars == <<kind, pc, cctx, ret, lim, limq, ns, nsq>>
 xvars == <<closeReq, eof>>
-pvars == <<connCtx, sock, sockCloses, list, taken, ran, done, doneCompletions, ppc>>
+pvars == <<connCtx, sock, sockCloses, list, taken, ran, done, doneCompletions, ppc, rpark>>
 vars == <<cvars, xvars, pvars>>
 
 Init == /\ kind \in {f \in [Calls -> Ops] : \A c \in Calls : c # "op" => f[c] = "do"}
@@ -86,7 +89,7 @@ Init == /\ kind \in {f \in [Calls -> Ops] : \A c \in Calls : c # "op" => f[c] = 
         /\ lim = "free" /\ limq = <<>> /\ ns = "free" /\ nsq = <<>>
         /\ closeReq = FALSE /\ eof = FALSE /\ connCtx = FALSE /\ sock = "open" /\ sockCloses = 0
         /\ list = Cbs /\ taken = [p \in Procs |-> {}] /\ ran = [c \in Cbs |-> 0] /\ done = FALSE /\ doneCompletions = 0
-        /\ ppc = [p \in Procs |-> "idle"]
+        /\ ppc = [p \in Procs |-> "idle"] /\ rpark = FALSE
 
 Remove(q, x) == SelectSeq(q, LAMBDA y : y # x)
 \* give a slot back: hand it to the head waiter (FIFO) or free it
@@ -112,7 +115,12 @@ PeerAck(c) == Datagram /\ pc[c] = "sent" /\ kind[c] = "do" /\ At(c, "acked")
 PeerContinue(c) == pc[c] = "sent" /\ kind[c] = "bwdo" /\ At(c, "midbw")
               /\ UNCHANGED <<kind, cctx, ret, lim, limq, ns, nsq>> /\ UNCHANGED <<xvars, pvars>>
 PeerAnswer(c) == pc[c] \in WaitPts /\ kind[c] # "discover" /\ Leave(c, "ok", TRUE) /\ UNCHANGED <<xvars, pvars>>
-Env == \/ \E c \in Calls : Invoke(c) \/ CtxDone(c) \/ PeerAck(c) \/ PeerContinue(c) \/ PeerAnswer(c)
+\* the handler is busy and the peer keeps sending: the receive queue fills up and the reader parks handing the next message over
+\* (before any interruption: afterwards it makes no difference to what is claimed)
+Flood == HasReader /\ ~rpark /\ ppc["reader"] = "idle" /\ ~closeReq /\ ~eof /\ ~connCtx /\ rpark' = TRUE
+         /\ UNCHANGED <<cvars, xvars, connCtx, sock, sockCloses, list, taken, ran, done, doneCompletions, ppc>>
+Env == \/ Flood
+       \/ \E c \in Calls : Invoke(c) \/ CtxDone(c) \/ PeerAck(c) \/ PeerContinue(c) \/ PeerAnswer(c)
        \/ LocalClose \/ PeerClose
 
 (* ---------------------------- the calls' own steps ------------------------ *)
@@ -153,26 +161,29 @@ CallStep(c) == (Enter(c) \/ QueuedGranted(c) \/ QueuedCtx(c) \/ TakeNS(c) \/ NSG
 Go(p, to) == ppc' = [ppc EXCEPT ![p] = to]
 \* Close(), two critical sections
 StartClose(p) == /\ ppc[p] = "idle"
-                 /\ IF p = "reader" THEN (connCtx \/ sock = "closed" \/ eof) ELSE closeReq
+                 /\ IF p = "reader"
+                    THEN IF rpark THEN (IF ParkWakes = "conn" THEN connCtx ELSE done)      \* parked: not in the read call
+                         ELSE (connCtx \/ sock = "closed" \/ eof)
+                    ELSE closeReq
                  /\ connCtx' = TRUE /\ Go(p, "cancelled")
-                 /\ UNCHANGED <<sock, sockCloses, list, taken, ran, done, doneCompletions>>
+                 /\ UNCHANGED <<sock, sockCloses, list, taken, ran, done, doneCompletions, rpark>>
 CloseSock(p) == /\ ppc[p] = "cancelled"
                 /\ IF ClosesSocket /\ sock = "open" THEN sock' = "closed" /\ sockCloses' = sockCloses + 1 ELSE UNCHANGED <<sock, sockCloses>>
                 /\ Go(p, IF p \in Closers THEN "end" ELSE "closed")
-                /\ UNCHANGED <<connCtx, list, taken, ran, done, doneCompletions>>
+                /\ UNCHANGED <<connCtx, list, taken, ran, done, doneCompletions, rpark>>
 \* shutdown()
 Pop(p) == /\ ppc[p] = "closed"
           /\ taken' = [taken EXCEPT ![p] = list]
           /\ IF PopAtomic THEN list' = {} /\ Go(p, "run") ELSE UNCHANGED list /\ Go(p, "clear")
-          /\ UNCHANGED <<connCtx, sock, sockCloses, ran, done, doneCompletions>>
+          /\ UNCHANGED <<connCtx, sock, sockCloses, ran, done, doneCompletions, rpark>>
 Clear(p) == /\ ppc[p] = "clear" /\ list' = {} /\ Go(p, "run")
-            /\ UNCHANGED <<connCtx, sock, sockCloses, taken, ran, done, doneCompletions>>
+            /\ UNCHANGED <<connCtx, sock, sockCloses, taken, ran, done, doneCompletions, rpark>>
 RunCb(p) == /\ ppc[p] = "run" /\ taken[p] # {}
             /\ \E c \in taken[p] : ran' = [ran EXCEPT ![c] = @ + 1] /\ taken' = [taken EXCEPT ![p] = @ \ {c}]
-            /\ UNCHANGED <<connCtx, sock, sockCloses, list, done, doneCompletions, ppc>>
+            /\ UNCHANGED <<connCtx, sock, sockCloses, list, done, doneCompletions, ppc, rpark>>
 Complete(p) == /\ ppc[p] = "run" /\ taken[p] = {}
                /\ done' = TRUE /\ doneCompletions' = doneCompletions + 1 /\ Go(p, "end")
-               /\ UNCHANGED <<connCtx, sock, sockCloses, list, taken, ran>>
+               /\ UNCHANGED <<connCtx, sock, sockCloses, list, taken, ran, rpark>>
 ProcStep(p) == (StartClose(p) \/ CloseSock(p) \/ Pop(p) \/ Clear(p) \/ RunCb(p) \/ Complete(p)) /\ UNCHANGED <<cvars, xvars>>
 
 Next == Env \/ (\E c \in Calls : CallStep(c)) \/ (\E p \in Procs : ProcStep(p))
@@ -180,7 +191,10 @@ Spec == Init /\ [][Next]_vars /\ (\A c \in Calls : WF_vars(CallStep(c))) /\ (\A 
 
 (* ---------------------------------- properties ---------------------------- *)
 \* "returns within a bounded delay once its context is cancelled or expires or the connection is closed by either side"
-Interrupted(c) == pc[c] # "idle" /\ (cctx[c] \/ closeReq \/ eof)
+\* (a reader that is parked on a full queue is not reading and cannot see the peer's EOF before the application's
+\*  handler makes room: the peer-close claims are made for a reader that is reading)
+PeerClosed == eof /\ ~rpark
+Interrupted(c) == pc[c] # "idle" /\ (cctx[c] \/ closeReq \/ PeerClosed)
 Ends == \A c \in Calls : Interrupted(c) ~> (pc[c] = "done")
 NoFalseError == \A c \in Calls : (ret[c] = "err") => (cctx[c] \/ closeReq \/ eof)
 \* slots are owned by at most one call and never by one that has returned
@@ -191,7 +205,7 @@ OnceEach == \A c \in Cbs : ran[c] <= 1
 SockOnce == sockCloses <= 1
 \* a stream connection completes its done signal by closing a channel: twice would panic
 DoneOnceIfReaderOnly == (Shutters = {}) => doneCompletions <= 1
-CloseCompletes == (closeReq \/ eof) ~> (done /\ \A c \in Cbs : ran[c] = 1)
+CloseCompletes == (closeReq \/ PeerClosed) ~> (done /\ \A c \in Cbs : ran[c] = 1)
 \* every (operation, point, kind) at which an interruption can strike, per transport
 KindsFor(dg) == IF dg THEN Kinds \ {"peerclose"} ELSE Kinds      \* a datagram peer cannot close
 OpsFor(dg) == IF dg THEN Ops ELSE Ops \ {"discover"}              \* discovery is a datagram-server operation
